@@ -169,13 +169,362 @@ Proof.
   apply read_written; auto; lia.
 Qed.
 
+Ltac rt_start :=
+  intros bytes h b maxread lhs lhs' rest Hwf Hne Hw He Hl Hm Ho;
+  unfold wf_cmd in Hwf; unfold write_cmd in Hw; unfold expected in He; unfold empty_headers in Hne;
+  unfold validStreamID, sid_ok, u32_ok, byte_ok in *.
+
 Lemma rt_rst sid code : rt_ok (WRst sid code).
 Proof.
-  intros bytes h b maxread lhs lhs' rest Hwf _ Hw He Hl Hm Ho.
-  cbn in Hwf, Hw, He. unfold validStreamID, sid_ok, u32_ok, P31 in *.
-  destruct (negb (sid =? 0) && (sid <? 2147483648)) eqn:Ev; [|lia]. cbn in Hw.
+  rt_start. unfold P31 in *.
+  destruct (negb (negb (sid =? 0) && (sid <? 2147483648))) eqn:Ev; [lia|].
   eapply rt_finish with (p := enc32 code); unfold P31; eauto; try lia.
   unfold parse_body. cbn [h_ty h_sid h_fl h_len]. cbn -[enc32 dec32].
-  destruct (Z.eqb_spec sid 0); [lia|]. cbn.
+  destruct (Z.eqb_spec sid 0); [lia|]. cbn -[enc32 dec32].
   rewrite <- (app_nil_r (enc32 code)), dec32_enc32 by lia. reflexivity.
 Qed.
+
+Ltac red_ty :=
+  repeat match goal with
+  | |- context [Z.eqb (Zpos ?a) (Zpos ?b)] =>
+    let v := eval vm_compute in (Z.eqb (Zpos a) (Zpos b)) in change (Z.eqb (Zpos a) (Zpos b)) with v
+  | |- context [Z.eqb (Zpos ?a) Z0] => change (Z.eqb (Zpos a) Z0) with false
+  | |- context [Z.eqb Z0 (Zpos ?a)] => change (Z.eqb Z0 (Zpos a)) with false
+  | |- context [Z.eqb Z0 Z0] => change (Z.eqb Z0 Z0) with true
+  end.
+Ltac pb_red := unfold parse_body; cbn [h_ty h_sid h_fl h_len]; red_ty; cbv beta iota zeta.
+
+Lemma hasf_vals : hasf 0 8 = false /\ hasf 1 8 = false /\ hasf 8 8 = true /\ hasf 9 8 = true /\
+  hasf 4 8 = false /\ hasf 12 8 = true /\ hasf 0 1 = false /\ hasf 1 1 = true.
+Proof. repeat split. Qed.
+
+Lemma rt_cont sid eh frag : rt_ok (WCont sid eh frag).
+Proof.
+  rt_start. unfold P31 in *.
+  destruct (negb (negb (sid =? 0) && (sid <? 2147483648))) eqn:Ev; [lia|].
+  eapply rt_finish with (p := frag); unfold P31; eauto; try lia.
+  pb_red. destruct (Z.eqb_spec sid 0); [lia|reflexivity].
+Qed.
+
+Lemma rt_ping ack data : rt_ok (WPing ack data).
+Proof.
+  rt_start. assert (Hd : blen data = 8) by lia.
+  eapply rt_finish with (p := data) (sid := 0); unfold P31; eauto; try lia.
+  - rewrite Hd. exact He.
+  - pb_red. rewrite Hd. reflexivity.
+Qed.
+
+Lemma rt_window sid inc : rt_ok (WWindow sid inc).
+Proof.
+  rt_start. unfold P31 in *.
+  destruct ((inc <? 1) || (inc >? 2147483647)) eqn:Ev; [lia|].
+  eapply rt_finish with (p := enc32 inc); unfold P31; eauto; try lia.
+  pb_red. change (blen (enc32 inc)) with 4. cbv beta iota. change (negb (4 =? 4)) with false. cbv iota.
+  rewrite <- (app_nil_r (enc32 inc)), dec32_enc32 by lia. unfold P31.
+  rewrite Z.mod_small by lia. destruct (Z.eqb_spec inc 0); [lia|reflexivity].
+Qed.
+
+Lemma rt_settings_ack : rt_ok WSettingsAck.
+Proof.
+  rt_start. eapply rt_finish with (p := []) (sid := 0); unfold P31; eauto; try lia.
+Qed.
+
+Lemma rt_goaway last code debug : rt_ok (WGoAway last code debug).
+Proof.
+  rt_start. unfold P31 in *.
+  eapply rt_finish with (p := enc32 (last mod 2147483648) ++ enc32 code ++ debug) (sid := 0); unfold P31; eauto; try lia.
+  - rewrite !blen_app, !blen_enc32. replace (4 + (4 + blen debug)) with (8 + blen debug) by lia. exact He.
+  - pb_red. rewrite !blen_app, !blen_enc32. pose proof (blen_nonneg debug).
+    destruct (Z.ltb_spec (4 + (4 + blen debug)) 8); [lia|].
+    rewrite dec32_enc32 by lia. rewrite (Z.mod_small last) by lia. unfold P31. rewrite (Z.mod_small last) by lia.
+    change 4 with (blen (enc32 last)) at 1. rewrite dropZ_app. rewrite dec32_enc32 by lia.
+    rewrite app_assoc. change 8 with (blen (enc32 last ++ enc32 code)). rewrite dropZ_app. reflexivity.
+Qed.
+
+Lemma rt_priority sid dep excl weight : rt_ok (WPriority sid dep excl weight).
+Proof.
+  rt_start. unfold P31 in *.
+  destruct (negb (negb (sid =? 0) && (sid <? 2147483648))) eqn:Ev; [lia|].
+  set (v := if excl && (dep <? 2147483648) then dep + 2147483648 else dep) in *.
+  assert (Hv : 0 <= v < 4294967296 /\ v mod 2147483648 = dep /\ negb (dep =? v) = excl).
+  { subst v. destruct excl; cbn [andb]; [destruct (Z.ltb_spec dep 2147483648)|]; lia. }
+  destruct Hv as (Hv1 & Hv2 & Hv3).
+  eapply rt_finish with (p := enc32 v ++ [weight]); unfold P31; eauto; try lia.
+  pb_red. destruct (Z.eqb_spec sid 0); [lia|]. rewrite blen_app, blen_enc32. change (blen [weight]) with 1.
+  change (negb (4 + 1 =? 5)) with false. cbv iota. rewrite dec32_enc32 by lia. unfold P31. rewrite Hv2, Hv3.
+  reflexivity.
+Qed.
+
+Lemma rt_data sid es data pad : rt_ok (WData sid es data pad).
+Proof.
+  rt_start. unfold P31 in *.
+  destruct (negb (negb (sid =? 0) && (sid <? 2147483648))) eqn:Ev; [lia|].
+  pose proof (blen_nonneg data) as Hd0.
+  destruct pad as [pd|].
+  - pose proof (blen_nonneg pd) as Hp0.
+    destruct (Z.gtb_spec (blen pd) 255); [lia|].
+    eapply rt_finish with (p := [blen pd] ++ data ++ pd); unfold P31; eauto; try lia.
+    + rewrite !blen_app. change (blen [blen pd]) with 1.
+      replace (1 + (blen data + blen pd)) with (blen data + (1 + blen pd)) by lia. exact He.
+    + pb_red. destruct (Z.eqb_spec sid 0); [lia|].
+      assert (Hf : hasf (b2z es + 8) 8 = true) by (destruct es; reflexivity). rewrite Hf. cbv iota.
+      cbn [app hd tl andb]. rewrite blen_cons.
+      destruct (Z.eqb_spec (blen (data ++ pd) + 1) 0); [pose proof (blen_nonneg (data ++ pd)); lia|].
+      rewrite blen_app. destruct (Z.gtb_spec (blen pd) (blen data + blen pd)); [lia|].
+      replace (blen data + blen pd - blen pd) with (blen data) by lia. rewrite takeZ_app. reflexivity.
+  - eapply rt_finish with (p := data); unfold P31; eauto; try lia.
+    + replace (b2z es + 0) with (b2z es) in He by lia. replace (blen data + 0) with (blen data) in He by lia. exact He.
+    + pb_red. destruct (Z.eqb_spec sid 0); [lia|].
+      assert (Hf : hasf (b2z es) 8 = false) by (destruct es; reflexivity). rewrite Hf. cbv iota. cbn [andb].
+      destruct (Z.gtb_spec 0 (blen data)); [lia|]. rewrite Z.sub_0_r, takeZ_all. reflexivity.
+Qed.
+
+Lemma hflags (a es eh pz : bool) :
+  let fl := (if a then 0 else 8) + b2z es + (if eh then 4 else 0) + (if pz then 0 else 32) in
+  hasf fl 8 = negb a /\ hasf fl 32 = negb pz.
+Proof. destruct a, es, eh, pz; split; reflexivity. Qed.
+
+Lemma dropZ5_enc v w r : dropZ 5 (enc32 v ++ [w] ++ r) = r.
+Proof. change 5 with (blen (enc32 v ++ [w])). rewrite app_assoc. apply dropZ_app. Qed.
+Lemma dropZ4_enc v r : dropZ 4 (enc32 v ++ r) = r.
+Proof. change 4 with (blen (enc32 v)). apply dropZ_app. Qed.
+
+Lemma rt_headers sid frag es eh padlen dep excl weight : rt_ok (WHeaders sid frag es eh padlen dep excl weight).
+Proof.
+  rt_start. unfold P31 in *.
+  destruct (negb (negb (sid =? 0) && (sid <? 2147483648))) eqn:Ev; [lia|].
+  cbv zeta in Hw, He. pose proof (blen_nonneg frag) as Hf0.
+  assert (Hfr : 0 < blen frag) by lia.
+  destruct (hflags (padlen =? 0) es eh (prio_is_zero dep excl weight)) as [F8 F32]. cbv zeta in F8, F32.
+  set (fl := (if padlen =? 0 then 0 else 8) + b2z es + (if eh then 4 else 0) +
+             (if prio_is_zero dep excl weight then 0 else 32)) in *.
+  assert (Hz : blen (repeat 0 (Z.to_nat padlen)) = padlen) by (apply blen_repeat; lia).
+  set (zs := repeat 0 (Z.to_nat padlen)) in *.
+  destruct (prio_is_zero dep excl weight) eqn:Epz.
+  - assert (dep = 0 /\ excl = false /\ weight = 0) as (-> & -> & ->).
+    { unfold prio_is_zero in Epz. destruct excl; cbn in Epz; [lia|]. repeat split; lia. }
+    cbn [negb andb] in Hw, F32.
+    destruct (Z.eqb_spec padlen 0) as [Ep|Ep]; cbn [negb] in F8.
+    + eapply rt_finish with (p := [] ++ [] ++ frag ++ zs); unfold P31; eauto; try lia.
+      * cbn [app]. rewrite blen_app, Hz, Ep. replace (blen frag + 0 + 0) with (blen frag + 0) in He by lia. exact He.
+      * pb_red. destruct (Z.eqb_spec sid 0); [lia|]. rewrite F8, F32. cbv iota. cbn [andb app].
+        rewrite blen_app, Hz, Ep. destruct (Z.leb_spec (blen frag + 0 - 0) 0); [lia|].
+        replace (blen frag + 0 - 0) with (blen frag) by lia. rewrite takeZ_app. reflexivity.
+    + eapply rt_finish with (p := [padlen] ++ [] ++ frag ++ zs); unfold P31; eauto; try lia.
+      * cbn [app]. rewrite blen_cons, blen_app, Hz.
+        replace (blen frag + padlen + 1) with (blen frag + (1 + padlen) + 0) by lia. exact He.
+      * pb_red. destruct (Z.eqb_spec sid 0); [lia|]. rewrite F8, F32. cbv iota. cbn [andb app hd tl].
+        rewrite blen_cons, blen_app, Hz. destruct (Z.eqb_spec (blen frag + padlen + 1) 0); [lia|].
+        destruct (Z.leb_spec (blen frag + padlen - padlen) 0); [lia|].
+        replace (blen frag + padlen - padlen) with (blen frag) by lia. rewrite takeZ_app. reflexivity.
+  - cbn [negb andb] in Hw, F32. cbn [orb] in Hwf.
+    destruct (negb (negb (dep =? 0) && (dep <? 2147483648))) eqn:Evd; [lia|].
+    set (v := dep + (if excl then 2147483648 else 0)) in *.
+    assert (Hv : 0 <= v < 4294967296 /\ v mod 2147483648 = dep /\ negb (v =? dep) = excl).
+    { subst v. destruct excl; lia. }
+    destruct Hv as (Hv1 & Hv2 & Hv3).
+    destruct (Z.eqb_spec padlen 0) as [Ep|Ep]; cbn [negb] in F8.
+    + eapply rt_finish with (p := [] ++ (enc32 v ++ [weight]) ++ frag ++ zs); unfold P31; eauto; try lia.
+      * cbn [app]. rewrite !blen_app, blen_enc32, Hz, Ep. change (blen [weight]) with 1.
+        replace (4 + 1 + (blen frag + 0)) with (blen frag + 0 + 5) by lia. exact He.
+      * pb_red. destruct (Z.eqb_spec sid 0); [lia|]. rewrite F8, F32. cbv iota. cbn [andb].
+        rewrite app_nil_l. rewrite <- app_assoc.
+        rewrite dropZ5_enc, dec32_enc32 by lia. rewrite !blen_app, blen_enc32, Hz, Ep. change (blen [weight]) with 1.
+        destruct (Z.ltb_spec (4 + (1 + (blen frag + 0))) 4); [lia|].
+        destruct (Z.eqb_spec (4 + (1 + (blen frag + 0))) 4); [lia|]. cbn [andb]. cbv iota.
+        unfold P31. rewrite Hv2, Hv3.
+        destruct (Z.leb_spec (blen frag + 0 - 0) 0); [lia|].
+        replace (blen frag + 0 - 0) with (blen frag) by lia. rewrite takeZ_app.
+        unfold enc32. cbn [app nth]. reflexivity.
+    + eapply rt_finish with (p := [padlen] ++ (enc32 v ++ [weight]) ++ frag ++ zs); unfold P31; eauto; try lia.
+      * cbn [app]. rewrite blen_cons, !blen_app, blen_enc32, Hz. change (blen [weight]) with 1.
+        replace (4 + 1 + (blen frag + padlen) + 1) with (blen frag + (1 + padlen) + 5) by lia. exact He.
+      * pb_red. destruct (Z.eqb_spec sid 0); [lia|]. rewrite F8, F32. cbv iota. cbn [andb app hd tl].
+        rewrite blen_cons. rewrite <- app_assoc.
+        rewrite dropZ5_enc, dec32_enc32 by lia. rewrite !blen_app, blen_enc32, Hz. change (blen [weight]) with 1.
+        destruct (Z.eqb_spec (4 + (1 + (blen frag + padlen)) + 1) 0); [lia|].
+        destruct (Z.ltb_spec (4 + (1 + (blen frag + padlen))) 4); [lia|].
+        destruct (Z.eqb_spec (4 + (1 + (blen frag + padlen))) 4); [lia|]. cbn [andb]. cbv iota.
+        unfold P31. rewrite Hv2, Hv3.
+        destruct (Z.leb_spec (blen frag + padlen - padlen) 0); [lia|].
+        replace (blen frag + padlen - padlen) with (blen frag) by lia. rewrite takeZ_app.
+        unfold enc32. cbn [app nth]. reflexivity.
+Qed.
+
+Lemma pflags (a eh : bool) :
+  hasf ((if a then 0 else 8) + (if eh then 4 else 0)) 8 = negb a.
+Proof. destruct a, eh; reflexivity. Qed.
+
+Lemma rt_push sid promise frag eh padlen : rt_ok (WPush sid promise frag eh padlen).
+Proof.
+  rt_start. unfold P31 in *.
+  destruct (negb (negb (sid =? 0) && (sid <? 2147483648))) eqn:Ev; [lia|].
+  destruct (negb (negb (promise =? 0) && (promise <? 2147483648))) eqn:Evp; [lia|].
+  pose proof (blen_nonneg frag) as Hf0.
+  pose proof (pflags (padlen =? 0) eh) as F8.
+  set (fl := (if padlen =? 0 then 0 else 8) + (if eh then 4 else 0)) in *.
+  assert (Hz : blen (repeat 0 (Z.to_nat padlen)) = padlen) by (apply blen_repeat; lia).
+  set (zs := repeat 0 (Z.to_nat padlen)) in *.
+  destruct (Z.eqb_spec padlen 0) as [Ep|Ep]; cbn [negb] in F8.
+  - eapply rt_finish with (p := [] ++ enc32 promise ++ frag ++ zs); unfold P31; eauto; try lia.
+    + cbn [app]. rewrite !blen_app, blen_enc32, Hz, Ep.
+      replace (4 + (blen frag + 0)) with (4 + blen frag + 0) by lia. exact He.
+    + pb_red. destruct (Z.eqb_spec sid 0); [lia|]. rewrite F8. cbv iota. cbn [andb app].
+      rewrite dropZ4_enc, dec32_enc32 by lia. rewrite !blen_app, blen_enc32, Hz, Ep.
+      destruct (Z.ltb_spec (4 + (blen frag + 0)) 4); [lia|].
+      destruct (Z.gtb_spec 0 (blen frag + 0)); [lia|].
+      unfold P31. rewrite Z.mod_small by lia.
+      replace (blen frag + 0 - 0) with (blen frag) by lia. rewrite takeZ_app. reflexivity.
+  - eapply rt_finish with (p := [padlen] ++ enc32 promise ++ frag ++ zs); unfold P31; eauto; try lia.
+    + cbn [app]. rewrite blen_cons, !blen_app, blen_enc32, Hz.
+      replace (4 + (blen frag + padlen) + 1) with (4 + blen frag + (1 + padlen)) by lia. exact He.
+    + pb_red. destruct (Z.eqb_spec sid 0); [lia|]. rewrite F8. cbv iota. cbn [andb app hd tl].
+      rewrite blen_cons.
+      rewrite dropZ4_enc, dec32_enc32 by lia. rewrite !blen_app, blen_enc32, Hz.
+      destruct (Z.eqb_spec (4 + (blen frag + padlen) + 1) 0); [lia|].
+      destruct (Z.ltb_spec (4 + (blen frag + padlen)) 4); [lia|].
+      destruct (Z.gtb_spec padlen (blen frag + padlen)); [lia|].
+      unfold P31. rewrite Z.mod_small by lia.
+      replace (blen frag + padlen - padlen) with (blen frag) by lia. rewrite takeZ_app. reflexivity.
+Qed.
+
+Definition enc_setting (s : Z * Z) : list Z := enc16 (fst s) ++ enc32 (snd s).
+Definition setting_ok (s : Z * Z) : bool :=
+  (0 <=? fst s) && (fst s <? 65536) && u32_ok (snd s) && (setting_valid (fst s) (snd s) =? 0).
+
+Lemma entry_dec id v rest : 0 <= id < 65536 -> 0 <= v < 4294967296 ->
+  let p := enc_setting (id, v) ++ rest in
+  dec16 p = id /\ dec32 (dropZ 2 p) = v /\ dropZ 6 p = rest /\ exists x t, p = x :: t.
+Proof.
+  intros Hi Hv. unfold enc_setting. cbn [fst snd]. cbv zeta. repeat split.
+  - rewrite <- app_assoc. apply dec16_enc16. exact Hi.
+  - rewrite <- app_assoc. change 2 with (blen (enc16 id)). rewrite dropZ_app. apply dec32_enc32. exact Hv.
+  - change 6 with (blen (enc16 id ++ enc32 v)). apply dropZ_app.
+  - unfold enc16. cbn [app]. eauto.
+Qed.
+
+Lemma settings_ok_gen l : forall fuel, forallb setting_ok l = true -> (length l <= fuel)%nat ->
+  settings_vcode fuel (flat_map enc_setting l) = 0 /\
+  match settings_value fuel (flat_map enc_setting l) 4 with Some v => v <= 2147483647 | None => True end.
+Proof.
+  induction l as [|[id v] l IH]; intros fuel Hok Hf.
+  - destruct fuel; simpl; auto.
+  - destruct fuel as [|f]; [simpl in Hf; lia|].
+    cbn [forallb] in Hok. apply andb_true_iff in Hok. destruct Hok as [Hs Hok].
+    unfold setting_ok, u32_ok in Hs. cbn [fst snd] in Hs.
+    cbn [flat_map].
+    destruct (entry_dec id v (flat_map enc_setting l)) as (E1 & E2 & E3 & x & t & Ep); [lia|lia|].
+    cbv zeta in E1, E2, E3, Ep.
+    destruct (IH f Hok ltac:(simpl in Hf; lia)) as [IH1 IH2].
+    cbn [settings_vcode settings_value]. rewrite Ep. rewrite <- Ep. rewrite E1, E2, E3.
+    assert (Hsv : setting_valid id v = 0) by lia. rewrite Hsv. cbn [Z.eqb]. split; [exact IH1|].
+    destruct (Z.eqb_spec id 4) as [->|]; [|exact IH2].
+    unfold setting_valid in Hsv. cbn in Hsv. destruct (Z.gtb_spec v 2147483647); [discriminate|lia].
+Qed.
+
+Lemma blen_flat_settings l : blen (flat_map enc_setting l) = 6 * blen (map fst l).
+Proof.
+  induction l as [|s l IH]; [reflexivity|]. cbn [flat_map map]. rewrite blen_app, blen_cons, IH.
+  change (blen (enc_setting s)) with 6. lia.
+Qed.
+
+Lemma rt_settings l : rt_ok (WSettings l).
+Proof.
+  rt_start. fold enc_setting in Hw, He.
+  change (forallb setting_ok l = true) in Hwf.
+  set (p := flat_map enc_setting l) in *.
+  pose proof (blen_flat_settings l) as Hlen. fold p in Hlen.
+  assert (Hfuel : (length l <= length p)%nat).
+  { unfold blen in Hlen. rewrite map_length in Hlen. lia. }
+  destruct (settings_ok_gen l (length p) Hwf Hfuel) as [Hvc Hsv]. fold p in Hvc, Hsv.
+  eapply rt_finish with (p := p) (sid := 0); unfold P31; eauto; try lia.
+  - rewrite Hlen. exact He.
+  - pb_red. change (hasf 0 1) with false. cbn [andb negb]. cbv iota.
+    assert (Hm6 : blen p mod 6 = 0) by (rewrite Hlen; lia). rewrite Hm6. cbn [Z.eqb negb]. cbv iota.
+    rewrite Hvc. destruct (settings_value (length p) p 4) as [v|]; [|reflexivity].
+    destruct (Z.gtb_spec v 2147483647); [lia|reflexivity].
+Qed.
+
+(* every Write method with legal parameters round-trips through ReadFrame *)
+Lemma roundtrip_all c : rt_ok c.
+Proof.
+  destruct c.
+  - apply rt_data.
+  - apply rt_headers.
+  - apply rt_priority.
+  - apply rt_rst.
+  - apply rt_settings.
+  - apply rt_settings_ack.
+  - apply rt_push.
+  - apply rt_ping.
+  - apply rt_goaway.
+  - apply rt_window.
+  - apply rt_cont.
+  - intros ? ? ? ? ? ? ? Hwf. discriminate Hwf.
+  - intros ? ? ? ? ? ? ? Hwf. discriminate Hwf.
+Qed.
+
+Lemma blen_takeZ l : forall n, 0 <= n <= blen l -> blen (takeZ n l) = n.
+Proof.
+  induction l as [|x l IH]; intros n H.
+  - rewrite blen_nil in H. simpl. rewrite blen_nil. lia.
+  - destruct (Z.eq_dec n 0) as [->|Hn]; [rewrite takeZ_le0 by lia; reflexivity|].
+    rewrite takeZ_cons by lia. rewrite blen_cons in *. rewrite IH by lia. lia.
+Qed.
+
+Lemma parse_err_not_ok h p e : parse_body h p = PErr e -> match e with ROk _ _ => False | _ => True end.
+Proof.
+  unfold parse_body. intro H.
+  repeat match type of H with
+         | context [if ?c then _ else _] => destruct c
+         | context [match ?o with Some _ => _ | None => _ end] => destruct o
+         end; try discriminate; inversion H; exact I.
+Qed.
+
+(* what an accepted frame looks like on the wire, and that it breaks no rule *)
+Lemma read_frame_ok_rules maxread lhs bs h b lhs' rest :
+  bytes_ok bs = true ->
+  read_frame maxread lhs bs = (ROk h b, lhs', rest) ->
+  h = parse_hdr bs /\ h_len h <= maxread /\
+  let p := takeZ (h_len h) (dropZ 9 bs) in
+  blen p = h_len h /\ rest = dropZ (h_len h) (dropZ 9 bs) /\
+  must_reject maxread lhs h p = false.
+Proof.
+  intros Hb H. unfold read_frame in H. destruct bs as [|x0 bs0] eqn:Ebs; [discriminate|]. rewrite <- Ebs in *.
+  destruct (Z.ltb_spec (blen bs) 9) as [|H9]; [discriminate|].
+  assert (Hlen0 : 0 <= h_len (parse_hdr bs)).
+  { unfold parse_hdr. cbn [h_len]. subst bs.
+    destruct bs0 as [|x1 [|x2 r]]; try (rewrite !blen_cons, ?blen_nil in H9; lia).
+    unfold bytes_ok in Hb. cbn [forallb] in Hb. unfold byte_ok in Hb. unfold dec24. lia. }
+  set (hh := parse_hdr bs) in *. set (r9 := dropZ 9 bs) in *.
+  destruct (Z.gtb_spec (h_len hh) maxread); [discriminate|].
+  destruct ((h_len hh >? 0) && (blen r9 =? 0)); [discriminate|].
+  destruct (Z.ltb_spec (blen r9) (h_len hh)); [discriminate|].
+  destruct (parse_body hh (takeZ (h_len hh) r9)) as [bb|e] eqn:Ep.
+  2:{ apply parse_err_not_ok in Ep. inversion H; subst e. destruct Ep. }
+  destruct (check_order lhs hh) as [l2|] eqn:Eo; [|discriminate].
+  inversion H; subst h b lhs' rest. split; [reflexivity|]. split; [lia|]. cbv zeta.
+  assert (Hbl : blen (takeZ (h_len hh) r9) = h_len hh) by (apply blen_takeZ; lia).
+  split; [exact Hbl|]. split; [reflexivity|].
+  apply (rules_sound maxread lhs hh _ bb l2); [symmetry; exact Hbl|lia|exact Ep|exact Eo].
+Qed.
+
+(* known finding 1 *)
+Lemma empty_headers_refuted :
+  wf_cmd (WHeaders 1 [] false true 0 0 false 0) = true /\
+  exists bytes, write_cmd (WHeaders 1 [] false true 0 0 false 0) = Some bytes /\
+                read_frame 16777215 0 bytes = (RStream 1 1, 0, []).
+Proof. split; [reflexivity|]. eexists. split; [reflexivity|]. vm_compute. reflexivity. Qed.
+
+Lemma roundtrip_example :
+  let c := WHeaders 3 [130; 134] true false 2 1 true 200 in
+  wf_cmd c = true /\ empty_headers c = false /\
+  exists bytes, write_cmd c = Some bytes /\
+    read_frame 16384 0 (bytes ++ [9; 9]) =
+      (ROk (mkh 1 41 3 10) (BHeaders 1 true 200 [130; 134]), 3, [9; 9]).
+Proof. repeat split. eexists. split; [reflexivity|]. vm_compute. reflexivity. Qed.
+
+Lemma rules_example :
+  must_reject 16384 0 (mkh 0 8 1 3) [3; 1; 2] = true /\ must_reject 16384 0 (mkh 4 0 0 5) [0; 1; 0; 0; 0] = true /\
+  must_reject 16384 5 (mkh 0 0 5 0) [] = true /\ must_reject 16384 0 (mkh 0 8 1 3) [2; 1; 2] = false.
+Proof. repeat split. Qed.
